@@ -228,13 +228,15 @@ fn nmt_specs() -> Vec<NmtSpec> {
         NmtSpec { dawntrail: true, textures: vec!["bg/ex5/01_xkt_x6/common/texture/x6a0_b0_flor1_d.tex"], keys: vec![(1, 2), (3, 4), (0xFFFFFFFF, 0)], constants: vec![(7, vec![1.5, -2.25]), (8, vec![0.0, 0.25, 1e9])], samplers: vec![(0x8A4E82B6, 7, 0)], dye: true, explicit_dims: false, layout: 0 },
         NmtSpec { dawntrail: false, textures: vec!["legacy/with/explicit/4x16.tex"], keys: vec![(5, 6)], constants: vec![(11, vec![2.5, 3.5])], samplers: vec![(0x2B99E025, 1, 0)], dye: false, explicit_dims: true, layout: 0 },
         NmtSpec { dawntrail: true, textures: vec!["a.tex", "b.tex", "c.tex"], keys: vec![], constants: vec![(9, vec![3.0])], samplers: vec![], dye: false, explicit_dims: false, layout: 0 },
+        // texture paths with bytes >= 0x80 in front of other paths
+        NmtSpec { dawntrail: false, textures: vec!["chara/mon\u{e9}ster/t\u{fc}r.tex", "chara/common/texture/second.tex", "\u{65e5}\u{672c}.tex", "last.tex"], keys: vec![], constants: vec![(1, vec![1.0])], samplers: vec![], dye: false, explicit_dims: false, layout: 0 },
         // constants whose values are NOT stored in listing order (reverse storage) and constants sharing one run of values (prefixes of [6, 7, 8, 9])
         NmtSpec { dawntrail: false, textures: vec!["r.tex"], keys: vec![], constants: vec![(21, vec![1.0, 2.0]), (22, vec![3.0]), (23, vec![4.0, 5.0, 6.0, 7.0])], samplers: vec![], dye: false, explicit_dims: false, layout: 1 },
         NmtSpec { dawntrail: true, textures: vec![], keys: vec![(1, 1)], constants: vec![(31, vec![6.0, 7.0]), (32, vec![6.0, 7.0, 8.0, 9.0]), (33, vec![6.0])], samplers: vec![], dye: false, explicit_dims: false, layout: 2 },
     ]
 }
 
-//@unit props=C14 label=B tier=quick native=1 fn=mtrl::Material::from_existing bound="by execution: 7 hand-packed materials (constants stored in listing order, in reverse order and sharing one run of values; legacy 16-row colour tables with implicit and with explicit 4x16 dimension bits, Dawntrail 32-row colour tables with a distinct exactly-representable half in every slot, with and without dye tables, 0..3 textures, 0..3 keys, constants of 1..4 floats, 0..2 samplers)"
+//@unit props=C14 label=B tier=quick native=1 fn=mtrl::Material::from_existing bound="by execution: 8 hand-packed materials (texture paths with non-ASCII bytes followed by further paths; constants stored in listing order, in reverse order and sharing one run of values; legacy 16-row colour tables with implicit and with explicit 4x16 dimension bits, Dawntrail 32-row colour tables with a distinct exactly-representable half in every slot, with and without dye tables, 0..3 textures, 0..3 keys, constants of 1..4 floats, 0..2 samplers)"
 //@desc the parsed material returns the shader package name, the texture paths in order, the keys, every constant with its own floats and count, the samplers, and every colour-table and dye-table row holds the values stored at its own position (row r, slot k)
 #[test]
 fn native_mtrl_parse() {
@@ -242,7 +244,8 @@ fn native_mtrl_parse() {
     for sp in nmt_specs().iter() {
         let m = Material::from_existing(&nmt_material(sp)).expect("a well-formed material parses");
         assert_eq!(m.shader_package_name, "character.shpk");
-        assert_eq!(m.texture_paths, sp.textures.iter().map(|s| s.to_string()).collect::<Vec<_>>(), "texture paths in order");
+        // every stored byte of a path becomes one character (bytes >= 0x80 included), and the next path starts right after the terminator
+        assert_eq!(m.texture_paths, sp.textures.iter().map(|s| s.bytes().map(|b| b as char).collect::<String>()).collect::<Vec<_>>(), "texture paths in order");
         assert_eq!(m.shader_keys.iter().map(|k| (k.category, k.value)).collect::<Vec<_>>(), sp.keys, "shader keys");
         assert_eq!(m.constants.len(), sp.constants.len());
         for (c, (id, vals)) in m.constants.iter().zip(sp.constants.iter()) {
